@@ -68,12 +68,12 @@ def functions_of(src):
     res = []
     # class extents, to attribute inline methods
     classes = []
-    for m in re.finditer(r'\b(?:class|struct)\s+(\w+)[^;{]*\{', src):
+    for m in re.finditer(r'\b(?:class|struct)\s+((?:\w+::)*\w+)[^;{]*\{', src):
         try:
             end = match_close(src, m.end() - 1, '{', '}')
         except TranslatorError:
             continue
-        classes.append((m.start(), end, m.group(1)))
+        classes.append((m.start(), end, m.group(1).split('::')[-1]))      # Outer::Inner { ... } defines Inner
     pos = 0
     for m in FUNC_RE.finditer(src):
         name = m.group(1)
@@ -245,9 +245,16 @@ class TU:
             return [(c, meth) for c in self.by_base[meth]]
         return []
 
+    TEMP_CALL = re.compile(r'\b(\w+)\s*\([^()]*\)\s*\.\s*((?:Traverse|Visit|WalkUp)\w*)\s*\(')
+
     def text_may_rewrite(self, text, cls=None, scope=''):
         if self.sink.search(text):
             return True
+        # Visitor(this).TraverseDecl(...): a temporary of one of our visitor classes
+        for m in self.TEMP_CALL.finditer(text):
+            anc = self.ancestors(m.group(1))
+            if any(k in self.rw for k in self.defs if k[0] in anc):
+                return True
         for m in self.CALL.finditer(text):
             recv, op, meth = m.group(1), m.group(2), m.group(3)
             for k in self.targets(recv, op, meth, cls, scope + text):
